@@ -101,6 +101,51 @@ def run_all(variants: list[dict], jobs: int = 16) -> list[dict]:
         return pool.map(run_variant, variants, chunksize=1)
 
 
+SEEDED = Path(__file__).resolve().parent.parent / "seeded"
+
+
+def run_seeded(prop: str) -> dict:
+    """Apply each seeded change written for `prop` to a scratch copy of the package (outside /repo and /verif, removed
+    afterwards) and run the property's rules on it.  A patch that no longer applies to the current tree is skipped."""
+    import shutil
+    import subprocess
+    import tempfile
+
+    out = {"applied": 0, "reported": 0, "skipped": 0, "missed": []}
+    if not SEEDED.is_dir():
+        return out
+    from .model import REPO
+
+    base = _baseline(prop)
+    for d in sorted(SEEDED.iterdir()):
+        meta_p, patch = d / "meta.json", d / "patch.diff"
+        if not (meta_p.exists() and patch.exists()):
+            continue
+        meta = json.loads(meta_p.read_text())
+        if meta.get("property") != prop:
+            continue
+        tmp = Path(tempfile.mkdtemp(prefix="fsa_seed_", dir="/tmp"))
+        try:
+            shutil.copytree(REPO / "fakesnow", tmp / "fakesnow", ignore=shutil.ignore_patterns("__pycache__"))
+            r = subprocess.run(["patch", "-p1", "-s", "-f", "-i", str(patch)], cwd=tmp, capture_output=True, text=True)
+            if r.returncode != 0:
+                out["skipped"] += 1
+                continue
+            out["applied"] += 1
+            try:
+                got = _findings(prop, Program(root=tmp))
+                new = [k for k in got if k not in base]
+            except AnalysisError:
+                new = []
+            if new:
+                out["reported"] += 1
+            else:
+                out["missed"].append(d.name)
+        finally:
+            shutil.rmtree(tmp, ignore_errors=True)
+    return out
+
+
 def run_for(prop: str, jobs: int = 16) -> int:
     """Thorough tier: run this property's variants, record in the evidence, never change the verdict."""
     from .report import EVID
@@ -116,6 +161,8 @@ def run_for(prop: str, jobs: int = 16) -> int:
         "failed": [{"name": r["name"], "detail": r["detail"]} for r in fails],
         "samples": [{"name": r["name"], "kind": r["kind"], "result": r["status"], "detail": r["detail"]} for r in results[:12]],
     }
+    seeded = run_seeded(prop)
+    summary["seeded_changes"] = seeded
     p = EVID / f"{prop}.json"
     if p.exists():
         ev = json.loads(p.read_text())
@@ -123,6 +170,8 @@ def run_for(prop: str, jobs: int = 16) -> int:
         p.write_text(json.dumps(ev, indent=1, default=str) + "\n")
     print(f"[{prop}] self-validation: {summary['armed_fired']} armed fired, {summary['neutral_silent']} neutral silent, "
           f"{summary['skipped']} skipped, {len(fails)} failed")
+    print(f"[{prop}] seeded changes written for this property: {seeded['applied']} applied, {seeded['reported']} reported, "
+          f"{seeded['skipped']} no longer apply, missed: {seeded['missed']}")
     for r in fails:
         print(f"SELFTEST-WARN {r['name']}: {r['detail']}")
     return 0
